@@ -14,6 +14,8 @@ mod c07;
 mod c09;
 mod c11;
 mod c12;
+mod c15;
+mod c16;
 mod common;
 
 pub struct Ctx {
@@ -73,6 +75,8 @@ fn main() {
         "C09" => c09::run(&ctx),
         "C11" => c11::run(&ctx),
         "C12" => c12::run(&ctx),
+        "C15" => c15::run(&ctx),
+        "C16" => c16::run(&ctx),
         _ => {
             eprintln!("unknown check {}", id);
             2
